@@ -1,38 +1,41 @@
-(* C11 -- sensitivity analyses agree with their definitions.  Statements only; proofs in Proofs/SensitivityProofs.v.
+(* C11 -- sensitivity analyses agree with their definitions.  Statements only; proofs in Proofs/SensitivityProofs.v (shape
+   theorems, search, props-level specs, certificates) and Proofs/SensitivityModel.v (the model functions produce the shapes;
+   built on the add_subcircuit / add_g inversions of the C04/C06 development).
 
-   Reading guide.  c: the original circuit (closed, acyclic, all free nodes primary inputs = lint-clean, blackbox-free, no 'x').
-   SC / SUB: the sub-circuit the transform copies (sub_of SC c: same types and fan-ins on a fan-in closed node set).
-   sens_shape / sv_shape: "T contains the prefixed copies, ties, flipped node, xor compares, sat / popcount hook-up" stated by
-   look-ups in T.  The shape is what the model functions of Model/Sensitivity.v build and what tx.py builds: `agree` of
-   Run/Run_C11.v evaluates sens_shapeb / sv_shapeb (sound: *_shapeb_sound) on every recorded implementation output, and
-   compares it with the model output.  So the _partial theorems below are full-strength statements about every graph of that
-   shape; what is not proved for all inputs is only "the model function always produces that shape" (see the _full statements). *)
+   Reading guide.  `comb c`: closed, acyclic, every free node a primary input without fan-in, no blackbox-typed node (lint-clean,
+   blackbox-free, no 'x').  `sensitization_transform`, `sensitivity_transform`: the models of tx.py written through Base/Api.v.
+   `sens_shape` / `sv_shape`: "T contains the prefixed copies, ties, flipped node, xor compares, sat / popcount hook-up", stated
+   by look-ups.  The two transform theorems are about the MODEL FUNCTIONS for all inputs (no shape hypothesis); the shape
+   theorems are kept because `agree` of Run/Run_C11.v evaluates sound shape checkers on every recorded implementation output. *)
 From Coq Require Import QArith.
 From stdpp Require Import strings gmap sets.
-From CG Require Import Model.Sensitivity Proofs.SensitivityProofs.
+From CG Require Import Model.Sensitivity Proofs.SensitivityProofs Proofs.SensitivityModel.
 Open Scope string_scope.
 Open Scope nat_scope.
 
-Definition wf (C : Circuit) : Prop := bb_free C ∧ closed (c_g C) ∧ acyclic (c_g C) ∧ inputs_only (c_g C).
 Definition selected (C : Circuit) (Eo : option (list string)) : list string :=
   match Eo with Some (e :: l) => e :: l | _ => elements (outputs (c_g C)) end.
 
-(* ---- full statements over the model functions (visible, NOT claimed; decided per generated case by the oracle) ---- *)
-Definition sensitization_spec_full : Prop := ∀ C n Eo T, wf C → n ∈ dom (c_g C) →
-  sensitization_transform C n Eo = Ok T →
+(* ---- sensitization_transform (full): for every accepted call on a combinational blackbox-free circuit, under every consistent
+        valuation of the result, sat = 1 iff inverting n changes a selected endpoint ---- *)
+Theorem sensitization_spec : ∀ C n Eo T,
+  c_bbs C = ∅ → comb (c_g C) → n ∈ dom (c_g C) → sensitization_transform C n Eo = Ok T →
   ∀ v, consistent (c_g T) v → (v "sat" = true ↔ sens_at (c_g C) n (selected C Eo) v).
-Definition sensitivity_transform_spec_full : Prop := ∀ C n ord PC W T, wf C →
-  sensitivity_transform C n ord PC = Ok T → clog2 (length ord + 1) = Ok W → popcount_correct (c_g PC) (length ord) W →
-  ∀ v, consistent (c_g T) v →
-    (∀ s, s ∈ ord → v ("dif_out_" ++ s) = true ↔ flips (c_g C) n s v) ∧
-    sen_bits v W = take_bits W (count (c_g C) n ord v).
-
-(* ---- sensitization_transform: sat = 1 iff inverting n changes a selected endpoint, for every graph of the shape ---- *)
-Theorem sensitization_spec_partial : ∀ c SC n (E : gset string) T,
+Proof. exact sensitization_model_spec. Qed.
+Print Assumptions sensitization_spec.
+(* the model function always produces the shape (sens_sub: the mitered sub-circuit and the compared node set) *)
+Theorem sensitization_model_shape : ∀ C n Eo T,
+  c_bbs C = ∅ → comb (c_g C) → n ∈ dom (c_g C) → sensitization_transform C n Eo = Ok T →
+  let '(SCg, Es) := sens_sub C Eo in
+  sub_of SCg (c_g C) ∧ n ∈ dom SCg ∧ Es ⊆ dom SCg ∧ sens_shape SCg n Es (c_g T).
+Proof. exact sens_model_facts. Qed.
+Print Assumptions sensitization_model_shape.
+(* ... and every graph of that shape has the property (this is what applies to the recorded implementation outputs) *)
+Theorem sensitization_shape_spec : ∀ c SC n (E : gset string) T,
   closed c → acyclic c → inputs_only c → sub_of SC c → n ∈ dom SC → E ⊆ dom SC → sens_shape SC n E T →
   ∀ v, consistent T v → (v "sat" = true ↔ sens_at c n (elements E) v).
-Proof. exact sensitization_shape_spec. Qed.
-Print Assumptions sensitization_spec_partial.
+Proof. exact SensitivityProofs.sensitization_shape_spec. Qed.
+Print Assumptions sensitization_shape_spec.
 
 (* the flipped-node lemma: after `disconnect fan-in; set_type not; connect c0_n` the node is the complement of its driver *)
 Theorem flipped_node : ∀ (g : circuit) x y o (v : val),
@@ -57,14 +60,31 @@ Theorem xor_compare : ∀ (v : val) a b, a ≠ b → gate_val Xor v {[a; b]} = x
 Proof. exact xor2_val. Qed.
 Print Assumptions xor_compare.
 
-(* ---- sensitivity_transform: dif_out_s = 1 iff flipping s flips n; sen_out = binary digits of the count (popcount: C13) ---- *)
-Theorem sensitivity_transform_spec_partial : ∀ c SUB n sp PC W T,
+(* ---- sensitivity_transform (full): for every accepted call, dif_out_s = 1 iff flipping s flips n, and the sen_out bits are the
+        binary digits of the count.  PC is the popcount circuit handed to the model: `pc_inputs` (in_0.. are primary inputs) and
+        `popcount_correct` are facts about logic.popcount (C13) ---- *)
+Theorem sensitivity_transform_spec : ∀ C n ord PC T W,
+  comb (c_g C) → pc_inputs (c_g PC) (length ord) →
+  sensitivity_transform C n ord PC = Ok T → clog2 (length ord + 1) = Ok W →
+  ∀ v, consistent (c_g T) v →
+    (∀ s, s ∈ ord → v ("dif_out_" ++ s) = true ↔ flips (c_g C) n s v) ∧
+    (popcount_correct (c_g PC) (length ord) W → sen_bits v W = take_bits W (count (c_g C) n ord v)).
+Proof. exact sensitivity_transform_model_spec. Qed.
+Print Assumptions sensitivity_transform_spec.
+Theorem sensitivity_model_shape : ∀ C n ord PC T W,
+  comb (c_g C) → pc_inputs (c_g PC) (length ord) →
+  sensitivity_transform C n ord PC = Ok T → clog2 (length ord + 1) = Ok W →
+  let SUB := induced (c_g C) (tfi (c_g C) [n] ∪ {[n]}) in
+  sub_of SUB (c_g C) ∧ n ∈ dom SUB ∧ NoDup ord ∧ inputs SUB = list_to_set ord ∧ sv_shape SUB n ord (c_g PC) W (c_g T).
+Proof. exact sv_model_facts. Qed.
+Print Assumptions sensitivity_model_shape.
+Theorem sensitivity_shape_spec : ∀ c SUB n sp PC W T,
   closed c → acyclic c → inputs_only c → sub_of SUB c → n ∈ dom SUB → sv_shape SUB n sp PC W T →
   ∀ v, consistent T v →
     (∀ s, s ∈ sp → v ("dif_out_" ++ s) = true ↔ flips c n s v) ∧
     (popcount_correct PC (length sp) W → sen_bits v W = take_bits W (count c n sp v)).
-Proof. exact sensitivity_shape_spec. Qed.
-Print Assumptions sensitivity_transform_spec_partial.
+Proof. exact SensitivityProofs.sensitivity_shape_spec. Qed.
+Print Assumptions sensitivity_shape_spec.
 
 (* ---- props.sensitivity ---- *)
 (* the bit-width argument: w = clog2 m; the un-truncated digits of k <= m padded to w pin a count c <= m down to k, except that
@@ -94,16 +114,25 @@ Theorem sensitivity_search_spec : ∀ (T : circuit) (m w : nat) (cnt : val → n
 Proof. exact search_max. Qed.
 Print Assumptions sensitivity_search_spec.
 
-(* composed with the transform theorem: on every graph of the sensitivity-circuit shape the search returns the sensitivity *)
-Theorem sensitivity_spec_partial : ∀ (solve : list (string * bool) → bool) c SUB n sp PC W w T,
-  closed c → acyclic c → inputs_only c → sub_of SUB c → n ∈ dom SUB → inputs SUB = list_to_set sp →
-  sv_shape SUB n sp PC W T → popcount_correct PC (length sp) W →
-  closed T → acyclic T → free_nodes T = list_to_set sp →
-  1 ≤ length sp → clog2 (length sp) = Ok w → clog2 (length sp + 1) = Ok W →
-  (∀ k, k ≤ length sp → let asm := asm_of (int_to_bin_le k w) in
-     solve asm = true ↔ ∃ v, consistent T v ∧ Forall (λ p : string * bool, v p.1 = p.2) asm) →
-  ∃ k, search solve w (length sp) = Ok k ∧ is_sensitivity c n sp k.
-Proof. exact sensitivity_spec. Qed.
+(* composed with the transform theorem: the search over the MODEL's sensitivity circuit returns the sensitivity.
+   Full statement (not claimed): the same without the three certificate hypotheses on T. *)
+Definition sensitivity_spec_full : Prop := ∀ (solve : list (string * bool) → bool) C n ord PC T W w,
+  comb (c_g C) → pc_inputs (c_g PC) (length ord) → popcount_correct (c_g PC) (length ord) W →
+  sensitivity_transform C n ord PC = Ok T → clog2 (length ord) = Ok w → clog2 (length ord + 1) = Ok W →
+  (∀ k, k ≤ length ord → let asm := asm_of (int_to_bin_le k w) in
+     solve asm = true ↔ ∃ v, consistent (c_g T) v ∧ Forall (λ p : string * bool, v p.1 = p.2) asm) →
+  ∃ k, search solve w (length ord) = Ok k ∧ is_sensitivity (c_g C) n ord k.
+(* proved: with the certificate of T as hypotheses (closed, acyclic, free nodes = the startpoints: they give a consistent valuation
+   for every input vector).  `holds` checks exactly this certificate on every recorded circuit (theorem `certificate`). *)
+Theorem sensitivity_spec_partial : ∀ (solve : list (string * bool) → bool) C n ord PC T W w,
+  comb (c_g C) → pc_inputs (c_g PC) (length ord) → popcount_correct (c_g PC) (length ord) W →
+  sensitivity_transform C n ord PC = Ok T →
+  closed (c_g T) → acyclic (c_g T) → free_nodes (c_g T) = list_to_set ord →
+  clog2 (length ord) = Ok w → clog2 (length ord + 1) = Ok W →
+  (∀ k, k ≤ length ord → let asm := asm_of (int_to_bin_le k w) in
+     solve asm = true ↔ ∃ v, consistent (c_g T) v ∧ Forall (λ p : string * bool, v p.1 = p.2) asm) →
+  ∃ k, search solve w (length ord) = Ok k ∧ is_sensitivity (c_g C) n ord k.
+Proof. exact sensitivity_model_spec. Qed.
 Print Assumptions sensitivity_spec_partial.
 (* the early exit: a primary input has sensitivity 1 *)
 Theorem sensitivity_of_input : ∀ c n i, c !! n = Some i → n_ty i = Input → is_sensitivity c n [n] 1.
@@ -119,6 +148,13 @@ Theorem sens_spec_from_shape : ∀ c SC x (E : gset string) T,
   sens_spec c x (elements E) (elements (startpoints T)) T.
 Proof. exact sens_spec_of_shape. Qed.
 Print Assumptions sens_spec_from_shape.
+(* ... and for the model's sensitization circuit (certificate of T as hypotheses, checked per recorded circuit) *)
+Theorem sens_spec_from_model : ∀ C n Eo T,
+  c_bbs C = ∅ → comb (c_g C) → n ∈ dom (c_g C) → sensitization_transform C n Eo = Ok T →
+  closed (c_g T) → acyclic (c_g T) → free_nodes (c_g T) = startpoints (c_g T) → startpoints (c_g T) = inputs (sens_sub C Eo).1 →
+  sens_spec (c_g C) n (elements (sens_sub C Eo).2) (elements (startpoints (c_g T))) (c_g T).
+Proof. exact sens_spec_of_model. Qed.
+Print Assumptions sens_spec_from_model.
 (* why influence may use the sensitization circuit of (startpoint s, endpoint n) *)
 Theorem invert_input_is_flip : ∀ c s n ρ i, c !! s = Some i → n_ty i = Input → n_fi i = ∅ → sens_at c s [n] ρ ↔ flips c n s ρ.
 Proof. exact sens_at_input. Qed.
@@ -183,39 +219,34 @@ Definition ex_c : Circuit :=
   {| c_name := "t"; c_bbs := ∅;
      c_g := {[ "a" := mk_node Input false ∅ ]} ∪ {[ "b" := mk_node Input false ∅ ]} ∪
             {[ "g" := mk_node And false {[ "a"; "b" ]} ]} ∪ {[ "o" := mk_node Not true {[ "g" ]} ]} |}.
-Definition ex_T : circuit := match sensitization_transform ex_c "g" None with Ok T => c_g T | _ => ∅ end.
-Example ex_wf : closed (c_g ex_c) ∧ acyclic (c_g ex_c) ∧ inputs_only (c_g ex_c).
+Definition ex_TC : Circuit := match sensitization_transform ex_c "g" None with Ok T => T | _ => ex_c end.
+Definition ex_T : circuit := c_g ex_TC.
+Example ex_comb : comb (c_g ex_c).
+Proof. apply combb_sound. vm_compute. reflexivity. Qed.
+Example ex_accepted : sensitization_transform ex_c "g" None = Ok ex_TC.
 Proof.
-  split; [apply closedb_spec; vm_compute; reflexivity|]. split; [apply acyclicb_sound; vm_compute; reflexivity|].
-  apply inputs_onlyb_sound; vm_compute; reflexivity.
+  assert (H : is_okb (sensitization_transform ex_c "g" None) = true) by (vm_compute; reflexivity).
+  apply is_okb_true in H as [T HT]. unfold ex_TC. by rewrite HT.
 Qed.
-Example ex_shape : sens_shape (c_g ex_c) "g" {[ "o" ]} ex_T.
-Proof. apply sens_shapeb_sound. vm_compute. reflexivity. Qed.
-(* the theorem instantiated: a closed statement about the model's output for this circuit *)
+(* the full theorem instantiated: a closed statement about the model's output for this circuit (o is the only output) *)
 Example ex_sensitization : ∀ v, consistent ex_T v → (v "sat" = true ↔ sens_at (c_g ex_c) "g" ["o"] v).
 Proof.
-  destruct ex_wf as (Hcl & Hac & Hio). intros v Hv.
-  assert (Hsub : sub_of (c_g ex_c) (c_g ex_c)) by (apply sub_ofb_sound; vm_compute; reflexivity).
+  intros v Hv.
   assert (Hn : "g" ∈ dom (c_g ex_c)) by (apply elem_of_dom; eexists; vm_compute; reflexivity).
-  assert (HE : ({[ "o" ]} : gset string) ⊆ dom (c_g ex_c)).
-  { intros e ->%elem_of_singleton. apply elem_of_dom; eexists; vm_compute; reflexivity. }
-  pose proof (sensitization_spec_partial _ _ "g" {[ "o" ]} ex_T Hcl Hac Hio Hsub Hn HE ex_shape v Hv) as H.
-  by rewrite elements_singleton in H.
+  pose proof (sensitization_spec ex_c "g" None ex_TC eq_refl ex_comb Hn ex_accepted v Hv) as H.
+  assert (He : selected ex_c None = ["o"]) by (vm_compute; reflexivity). by rewrite He in H.
 Qed.
-(* both sides of the equivalence are inhabited: a = b = 1 sensitizes g to o, and sat can be 0 *)
+(* both sides of the equivalence are inhabited: a = b = 1 sensitizes g to o *)
 Example ex_sensitizing : sens_at (c_g ex_c) "g" ["o"] (λ _, true).
 Proof. exists "o". split; [by left|]. vm_compute. discriminate. Qed.
-
-(* the hypotheses of influence_spec / sensitize_spec hold for this circuit: sens_spec from the shape and the certificate *)
-Example ex_sens_spec : sens_spec (c_g ex_c) "g" ["o"] (elements (startpoints ex_T)) ex_T.
+(* the model's output has the shape, and the recorded-output checker accepts it *)
+Example ex_shape : sens_shape (c_g ex_c) "g" {[ "o" ]} ex_T.
+Proof. apply sens_shapeb_sound. vm_compute. reflexivity. Qed.
+(* the hypotheses of influence_spec / sensitize_spec hold for this circuit: sens_spec from the model and the certificate *)
+Example ex_sens_spec : sens_spec (c_g ex_c) "g" (elements (sens_sub ex_c None).2) (elements (startpoints ex_T)) ex_T.
 Proof.
-  destruct ex_wf as (Hcl & Hac & Hio).
-  assert (Hsub : sub_of (c_g ex_c) (c_g ex_c)) by (apply sub_ofb_sound; vm_compute; reflexivity).
   assert (Hn : "g" ∈ dom (c_g ex_c)) by (apply elem_of_dom; eexists; vm_compute; reflexivity).
-  assert (HE : ({[ "o" ]} : gset string) ⊆ dom (c_g ex_c)).
-  { intros e ->%elem_of_singleton. apply elem_of_dom; eexists; vm_compute; reflexivity. }
-  rewrite <- (elements_singleton (C:=gset string) "o").
-  apply (sens_spec_from_shape (c_g ex_c) (c_g ex_c) "g" {[ "o" ]} ex_T Hcl Hac Hio Hsub Hn HE ex_shape).
+  apply (sens_spec_from_model ex_c "g" None ex_TC eq_refl ex_comb Hn ex_accepted).
   - apply closedb_spec; vm_compute; reflexivity.
   - apply acyclicb_sound; vm_compute; reflexivity.
   - by_bool.
@@ -229,7 +260,17 @@ Definition ex_c2 : Circuit :=
 Definition ex_pc : Circuit :=
   {| c_name := "popcount"; c_bbs := ∅;
      c_g := {[ "in_0" := mk_node Input false ∅ ]} ∪ {[ "out_0" := mk_node Buf true {[ "in_0" ]} ]} |}.
-Definition ex_T2 : circuit := match sensitivity_transform ex_c2 "g" ["a"] ex_pc with Ok T => c_g T | _ => ∅ end.
+Definition ex_T2C : Circuit := match sensitivity_transform ex_c2 "g" ["a"] ex_pc with Ok T => T | _ => ex_c2 end.
+Definition ex_T2 : circuit := c_g ex_T2C.
+Example ex_accepted2 : sensitivity_transform ex_c2 "g" ["a"] ex_pc = Ok ex_T2C.
+Proof.
+  assert (H : is_okb (sensitivity_transform ex_c2 "g" ["a"] ex_pc) = true) by (vm_compute; reflexivity).
+  apply is_okb_true in H as [T HT]. unfold ex_T2C. by rewrite HT.
+Qed.
+Example ex_comb2 : comb (c_g ex_c2).
+Proof. apply combb_sound. vm_compute. reflexivity. Qed.
+Example ex_pc_inputs : pc_inputs (c_g ex_pc) 1.
+Proof. intros i Hi. assert (i = 0) as -> by lia. eexists. split; [vm_compute; reflexivity|done]. Qed.
 Example ex_pc_correct : popcount_correct (c_g ex_pc) 1 1.
 Proof.
   intros u Hu. specialize (Hu "out_0" (mk_node Buf true {[ "in_0" ]}) eq_refl).
@@ -240,8 +281,14 @@ Proof.
   cbn [seq fmap list_fmap]. rewrite H0, filter_cons, filter_nil, H1, Hu.
   destruct (u "in_0"); vm_compute; reflexivity.
 Qed.
-Example ex_sv_shape : sv_shape (c_g ex_c2) "g" ["a"] (c_g ex_pc) 1 ex_T2.
-Proof. apply sv_shapeb_sound. vm_compute. reflexivity. Qed.
+(* the full transform theorem instantiated *)
+Example ex_sensitivity_transform : ∀ v, consistent ex_T2 v →
+  (v "dif_out_a" = true ↔ flips (c_g ex_c2) "g" "a" v) ∧ sen_bits v 1 = take_bits 1 (count (c_g ex_c2) "g" ["a"] v).
+Proof.
+  intros v Hv.
+  destruct (sensitivity_transform_spec ex_c2 "g" ["a"] ex_pc ex_T2C 1 ex_comb2 ex_pc_inputs ex_accepted2 eq_refl v Hv) as [H1 H2].
+  split; [apply (H1 "a"); by left|apply H2, ex_pc_correct].
+Qed.
 (* the whole chain for this circuit: the search over the model's sensitivity circuit with the brute-force solver returns a
    number that is the sensitivity of g (all hypotheses of sensitivity_spec_partial discharged) *)
 Example ex_sensitivity : ∃ k, search (bf_solve ex_T2 ["a"]) 0 1 = Ok k ∧ is_sensitivity (c_g ex_c2) "g" ["a"] k.
@@ -249,17 +296,8 @@ Proof.
   assert (HclT : closed ex_T2) by (apply closedb_spec; vm_compute; reflexivity).
   assert (HacT : acyclic ex_T2) by (apply acyclicb_sound; vm_compute; reflexivity).
   assert (HfT : free_nodes ex_T2 = list_to_set ["a"]) by by_bool.
-  assert (Hcl : closed (c_g ex_c2)) by (apply closedb_spec; vm_compute; reflexivity).
-  assert (Hac : acyclic (c_g ex_c2)) by (apply acyclicb_sound; vm_compute; reflexivity).
-  assert (Hio : inputs_only (c_g ex_c2)) by (apply inputs_onlyb_sound; vm_compute; reflexivity).
-  assert (Hsub : sub_of (c_g ex_c2) (c_g ex_c2)) by (apply sub_ofb_sound; vm_compute; reflexivity).
-  assert (Hn : "g" ∈ dom (c_g ex_c2)) by (apply elem_of_dom; eexists; vm_compute; reflexivity).
-  assert (Hin : inputs (c_g ex_c2) = list_to_set ["a"]) by by_bool.
-  assert (Hm : 1 ≤ length ["a"]) by (simpl; lia).
-  assert (Hw : clog2 (length ["a"]) = Ok 0) by (vm_compute; reflexivity).
-  assert (HW : clog2 (length ["a"] + 1) = Ok 1) by (vm_compute; reflexivity).
-  refine (sensitivity_spec_partial (bf_solve ex_T2 ["a"]) (c_g ex_c2) (c_g ex_c2) "g" ["a"] (c_g ex_pc) 1 0 ex_T2
-            Hcl Hac Hio Hsub Hn Hin ex_sv_shape ex_pc_correct HclT HacT HfT Hm Hw HW _).
+  refine (sensitivity_spec_partial (bf_solve ex_T2 ["a"]) ex_c2 "g" ["a"] ex_pc ex_T2C 1 0
+            ex_comb2 ex_pc_inputs ex_pc_correct ex_accepted2 HclT HacT HfT eq_refl eq_refl _).
   intros k Hk asm. apply bf_solve_ok; [exact HclT|exact HacT|exact HfT|].
   assert (k = 0 ∨ k = 1) as [->| ->] by (simpl in Hk; lia);
     intros p [->|[]%elem_of_nil]%elem_of_cons; apply elem_of_dom; eexists; vm_compute; reflexivity.
